@@ -318,22 +318,48 @@ OFFSETS = [0.0, 1e6, 1e8, 1.7e9, 1e10, 1e12]
 EPS = 2.0 ** -52
 
 
-def stress_matrix(rng, n, p, offset=None, mixed=None):
+def stress_matrix(rng, n, p, offset=None, mixed=None, per_column=False):
     """float matrix whose entries are off_j + s_j * small integer, every entry and every difference exactly
-    representable; returns (float array, structural tag)"""
+    representable; returns (float array, [(off_j, s_j)], structural tag).  per_column: every column draws its own
+    offset, so that the columns' magnitudes can differ by many orders."""
     offset = rng.choice(OFFSETS) if offset is None else offset
     mixed = (rng.random() < 0.3) if mixed is None else mixed
     cols, scales = [], []
     for j in range(p):
         sc = float(rng.choice([2.0 ** -6, 1.0, 2.0 ** 8])) if mixed else 1.0
-        off = offset if (not mixed or rng.random() < 0.7) else 0.0
+        if per_column:
+            off = float(rng.choice([0.0, offset, offset, 1e6, 1e9, 1e12]))
+        else:
+            off = offset if (not mixed or rng.random() < 0.7) else 0.0
         if off * 1.0 + sc * 64 > 2.0 ** 52 or (off and sc < 1 and off > 1e10):
             sc = 1.0
         cols.append(off + sc * rng.integers(0, 20, size=n).astype(float))
         scales.append((off, sc))
     X = np.stack(cols, 1)
-    tag = ("offset>=1e6" if offset >= 1e6 else "small-offset") + ("+mixed-scales" if mixed else "")
+    offs = [o for o, _ in scales]
+    tag = ("offset>=1e6" if max(offs) >= 1e6 else "small-offset") + ("+mixed-scales" if mixed else "") + \
+        ("+column-offsets-differ" if max(offs) >= 1e6 * (min(offs) + 1) else "")
     return X, scales, tag
+
+
+def storage_variant(X, i):
+    """the same (exactly representable) values stored as another dtype / layout: (array, tag)"""
+    i = i % 6
+    if i in (1, 4):
+        for dt, name in ((np.float16, "float16"), (np.float32, "float32")) if i == 1 else ((np.float32, "float32"),):
+            with np.errstate(over="ignore"):
+                Y = X.astype(dt)
+            if np.array_equal(Y.astype(float), X):
+                if i == 4:                                   # strided view of a larger array
+                    big = np.zeros((2 * X.shape[0], X.shape[1] + 1), dtype=dt)
+                    big[::2, 1:] = Y
+                    return big[::2, 1:], name + "-strided"
+                return Y, name
+    if i == 2 and np.all(X == np.rint(X)) and np.abs(X).max() < 2.0 ** 62:
+        return X.astype(np.int64), "int64"
+    if i == 3:
+        return np.asfortranarray(X.copy()), "float64-fortran"
+    return X.copy(), "float64"
 
 
 def exact_d2(x, c):
@@ -411,16 +437,17 @@ def float_stress_section(ck):
         estep_case(X, C, tag)
 
     # ---- float kmeans: member means, inertia, monotonicity in maxiter, fixed point is a nearest-centre labelling
-    for t in range(ck.n(60, 600)):
+    for t in range(ck.n(90, 600)):
         n = int(rng.integers(2, 10))
         p = int(rng.integers(1, 4))
         k = int(rng.integers(1, min(n, 4) + 1))
-        X, scales, tag = stress_matrix(rng, n, p, offset=float(rng.choice([0.0, 1e6, 1e8, 1.7e9])))
+        X, scales, tag = stress_matrix(rng, n, p, offset=float(rng.choice([0.0, 0.0, 1e3, 1e6, 1e8, 1.7e9])), per_column=(t % 5 == 4))
         dl = [0.0, 1e-4, 0.25, 1.0][t % 4]              # tolerance stops with a non-zero last move included
         if t % 3 == 0 and n >= 3:                        # a far-away group inflates the variance
             X[-1] = X[-1] + np.array([sc * 4096.0 for off, sc in scales])
             tag += "+far-group"
         tag += "+delta>0" if dl > 0 else ""
+        tag += "/" + storage_variant(X, t)[1]            # dtype / layout in which the data are handed over
         lab = rng.integers(0, k, size=n)
         Xe = [[F(float(v)) for v in r] for r in X]
         maxabs = float(np.abs(X).max()) + 1.0
@@ -432,7 +459,8 @@ def float_stress_section(ck):
         res = {}
         for mi in (1, 2, 3, 50, 51):
             try:
-                C, z, J = U.kmeans(X.copy(), k, lab.copy(), maxiter=mi, delta=dl)
+                Xin, dtag = storage_variant(X, t)
+                C, z, J = U.kmeans(Xin, k, lab.copy(), maxiter=mi, delta=dl)
             except Exception as e:  # noqa
                 ck.fail("kmeans/float/raises", "kmeans raised %s: %s" % (type(e).__name__, e), dict(rep, maxiter=mi))
                 break
@@ -470,27 +498,35 @@ def float_stress_section(ck):
               ("grid", 6, [(0, 1), (1, 2), (3, 4), (4, 5), (0, 3), (1, 4), (2, 5)]),
               ("two-paths", 6, [(0, 1), (1, 2), (3, 4), (4, 5)])]
     first = True
-    for t in range(ck.n(30, 240)):
+    for t in range(ck.n(60, 300)):
         name, n, E0 = shapes[t % len(shapes)]
         E = [(min(a, b), max(a, b)) for a, b in E0]
-        p = int(rng.integers(1, 3))
-        offset = [1e6, 1e8, 1e9, 1e12, 0.0][t % 5]
+        p = int(rng.integers(2, 4)) if t % 2 == 1 else int(rng.integers(1, 3))
+        offset = [1e6, 1e8, 1e9, 1e12, 0.0, 1e3][t % 6]
         if first:                                        # the written-out case: 1e9 + [0, 1, 5, 7] on a path
             feat = (1e9 + np.array([0., 1., 5., 7.])).reshape(4, 1)
-            offset, first = 1e9, False
+            offset, first, tg_ = 1e9, False, ""
         else:
-            feat, _, _ = stress_matrix(rng, n, p, offset=offset, mixed=False)
+            feat, sc_, tg_ = stress_matrix(rng, n, p, offset=offset, mixed=False, per_column=(t % 2 == 1))
+            offset = max(o for o, _ in sc_)
         suffix = "/large-offset" if offset >= 1e6 else "/float"
+        if not first and "column-offsets-differ" in tg_:
+            suffix += "+column-offsets-differ"
+        fin, dtag = storage_variant(feat, t // 2)
+        if dtag.startswith(("float16", "float32")):
+            suffix = "/narrow-float-dtype"                # the structural feature that matters, whatever the offsets
+        elif dtag != "float64":
+            suffix += "/" + dtag
         featl = [[float(v) for v in r] for r in feat]
         Ed = E + [(b, a) for a, b in E]
-        rep = {"graph": name, "n": n, "edges": [list(e) for e in Ed], "features": [[repr(v) for v in r] for r in featl]}
+        rep = {"graph": name, "n": n, "edges": [list(e) for e in Ed], "features": [[repr(v) for v in r] for r in featl], "features_dtype": dtag}
         ck.count(("fward", name, rep["features"]), bucket="float-ward:%s" % suffix[1:])
         for fn, cheapest in (("ward", True), ("ward_quick", False)):
             with warnings.catch_warnings():
                 warnings.simplefilter("ignore")
                 try:
                     Wg = [np.ones(len(Ed)), np.zeros(len(Ed)), np.array([float(a - b) for a, b in Ed])][t % 3]
-                    tt = getattr(hc, fn)(WeightedGraph(n, np.array(Ed, dtype=np.int_), Wg), feat.copy())
+                    tt = getattr(hc, fn)(WeightedGraph(n, np.array(Ed, dtype=np.int_), Wg), fin.copy())
                 except Exception as e:  # noqa
                     ck.fail("%s/raises/%s%s" % (fn, type(e).__name__, suffix), "%s raised %s: %s" % (fn, type(e).__name__, e), rep)
                     continue
